@@ -94,6 +94,7 @@ package parser
 //@ modcomps H_ E_ MD_ MV_ G_ C_
 //@ ensures result == nil || ref(result) != nil
 //@ ensures old(PInv(p)) ==> PInv(p)
+//@ ensures old(p.err) != nil ==> p.err != nil
 //@ assume[recv.nonnil] p != nil
 //@ ensures[C03.parser.depth.restore] p.depth == old(p.depth)
 
@@ -168,6 +169,11 @@ package parser
 //@ ghostensures result != nil ==> uf("parsedAt", int, result) == precedence
 //@ ensures old(PInv(p)) ==> PInv(p)
 //@ ensures result == nil || ref(result) != nil
+//@ ensures old(p.err) != nil ==> p.err != nil
+
+// The first error is kept ("errors are sticky", assumed above of the two trusted dispatchers): the only writers of
+// Parser.err are setError and peekError, and both leave an error that is already recorded alone.
+//@ scan[C03.err.writers] C03 fieldwriters Parser.err: setError peekError
 
 // An infix operator parses its right operand at exactly its own binding power (so equal powers associate to the
 // left) and builds Infix(left, operator literal, right) in that order.
